@@ -30,6 +30,7 @@ Create(c) ==
   /\ st[c] = "idle" /\ st' = [st EXCEPT ![c] = "created"]
   /\ ev' = [e |-> "create", c |-> c, t |-> now, res |-> "created", ns |-> 0]
   /\ UNCHANGED <<cfg, now, started, nextAt, failed, q, att, ngate>>
+Ls == IF "ls" \in DOMAIN cfg THEN cfg.ls ELSE 0
 NewAtts(c, k0, n) == [i \in 1..n |-> [c |-> c, k |-> k0 + i - 1, s |-> "pending"]]
 \* first poll: the primary starts (in parallel mode: all attempts)
 FirstPoll(c) ==
@@ -38,10 +39,13 @@ FirstPoll(c) ==
          ng == IF Blk THEN 1 ELSE n IN
      /\ att' = att \o NewAtts(c, 0, ng) /\ ngate' = ngate + ng
      /\ started' = [started EXCEPT ![c] = n]
-     /\ ev' = [e |-> "poll", c |-> c, t |-> now, res |-> "pending", ns |-> ng, si |-> ngate + 1, sc |-> c]
+     /\ ev' = [e |-> "poll", c |-> c, t |-> now + Ls, res |-> "pending", ns |-> ng, si |-> ngate + 1, sc |-> c]
   /\ st' = [st EXCEPT ![c] = "running"]
-  /\ nextAt' = [nextAt EXCEPT ![c] = now + Delay(1)]
-  /\ UNCHANGED <<cfg, now, failed, q>>
+  \* cfg.ls > 0: a listener of the primary-started event takes ls ms (synchronously) before the primary is started; the
+  \* first hedge's delay counts from the primary's start, not from the entry into the call
+  /\ now' = now + Ls
+  /\ nextAt' = [nextAt EXCEPT ![c] = now + Ls + Delay(1)]
+  /\ UNCHANGED <<cfg, failed, q>>
 \* environment resolves attempt i; its task delivers the result at once (also after the call has resolved)
 Complete(i, o) ==
   /\ i \in 1..Len(att) /\ att[i].s = "pending"
